@@ -610,3 +610,159 @@ Proof.
   intros H; inversion H; subst. unfold normalised. simpl. rewrite nthq_vdivs.
   apply qzerob_false in Z. field. lra.
 Qed.
+
+(* ====================================================================================== *)
+(* Histories on copies of a set's members never reach the set                               *)
+Lemma nth_upd_neq {A} (l : list A) i j x d : i <> j -> nth j (upd l i x) d = nth j l d.
+Proof.
+  revert i j; induction l as [|h t IH]; intros [|i] [|j] H; simpl; auto; try congruence.
+Qed.
+
+Lemma Forall_upd {A} (P : A -> Prop) (l : list A) i x : Forall P l -> P x -> Forall P (upd l i x).
+Proof.
+  intros F Px. revert i. induction F as [|h t Ph Ft IH]; intros [|i]; simpl; auto.
+Qed.
+
+(* cells below n0 hold the set's rows; every derived object owns a cell at or above n0 *)
+Definition hinv (n0 : nat) (h0 : heap) (s : hstate) : Prop :=
+  (n0 <= length (hp s))%nat /\
+  Forall (fun d => (n0 <= hcell d < length (hp s))%nat) (derived s) /\
+  forall c, (c < n0)%nat -> nth c (hp s) [] = nth c h0 [].
+
+Lemma hinv_grow n0 (l : list href) (h : heap) x :
+  Forall (fun d => (n0 <= hcell d < length h)%nat) l ->
+  Forall (fun d => (n0 <= hcell d < length (h ++ [x]))%nat) l.
+Proof. apply Forall_impl. intros d (A & B). rewrite app_length. simpl. lia. Qed.
+
+Lemma do_copy_inv mws n0 h0 s src b s' : hinv n0 h0 s -> do_copy mws s src b = Ok s' -> hinv n0 h0 s'.
+Proof.
+  intros (L & D & F). unfold do_copy. destruct b as [b|].
+  - destruct (set_basis mws _ b) as [r'|e]; simpl; [|discriminate].
+    intros H; inversion H; subst; clear H. unfold hinv; simpl.
+    rewrite upd_length, app_length; simpl. split; [lia|]. split.
+    + apply Forall_app. split.
+      * eapply Forall_impl; [|exact D]. intros d (A & B). simpl in *. lia.
+      * constructor; [simpl; lia|constructor].
+    + intros c Hc. rewrite nth_upd_neq by lia. rewrite app_nth1 by lia. apply F; auto.
+  - intros H; inversion H; subst; clear H. unfold hinv; simpl. rewrite app_length; simpl.
+    split; [lia|]. split.
+    + apply Forall_app. split.
+      * eapply Forall_impl; [|exact D]. intros d (A & B). simpl in *. lia.
+      * constructor; [simpl; lia|constructor].
+    + intros c Hc. rewrite app_nth1 by lia. apply F; auto.
+Qed.
+
+Lemma do_backwards_inv n0 h0 s src r x s' : hinv n0 h0 s -> do_backwards s src r x = Ok s' -> hinv n0 h0 s'.
+Proof.
+  intros (L & D & F). unfold do_backwards.
+  destruct (backwards _ r x) as [r'|e]; simpl; [|discriminate].
+  intros H; inversion H; subst; clear H. unfold hinv; simpl. rewrite app_length; simpl.
+  split; [lia|]. split.
+  - apply Forall_app. split.
+    + eapply Forall_impl; [|exact D]. intros d (A & B). simpl in *. lia.
+    + constructor; [simpl; lia|constructor].
+  - intros c Hc. rewrite app_nth1 by lia. apply F; auto.
+Qed.
+
+Lemma hstep_inv mws members n0 h0 s o s' : hinv n0 h0 s -> hstep mws members s o = Ok s' -> hinv n0 h0 s'.
+Proof.
+  intros I. destruct o as [lo k b|k r x|j b|j b|j r x]; simpl.
+  - destruct (nth_error (skipn lo members) k); [|discriminate]. apply do_copy_inv; auto.
+  - destruct (nth_error members k); [|discriminate]. apply do_backwards_inv; auto.
+  - destruct (nth_error (derived s) j) as [d|] eqn:E; [|discriminate].
+    destruct (set_basis mws _ b) as [r'|e]; simpl; [|discriminate].
+    intros H; inversion H; subst; clear H. destruct I as (L & D & F).
+    assert (Hd : (n0 <= hcell d < length (hp s))%nat).
+    { apply nth_error_In in E. rewrite Forall_forall in D. apply D; auto. }
+    unfold hinv; simpl. rewrite upd_length. split; auto. split.
+    + apply Forall_upd; auto.
+    + intros c Hc. rewrite nth_upd_neq by lia. apply F; auto.
+  - destruct (nth_error (derived s) j); [|discriminate]. apply do_copy_inv; auto.
+  - destruct (nth_error (derived s) j); [|discriminate]. apply do_backwards_inv; auto.
+Qed.
+
+Lemma hrun_inv mws members n0 h0 ops : forall s, hinv n0 h0 s -> hinv n0 h0 (fst (hrun mws members s ops)).
+Proof.
+  induction ops as [|o t IH]; intros s I; simpl; auto.
+  destruct (hstep mws members s o) as [s'|e] eqn:E.
+  - assert (I' := hstep_inv _ _ _ _ _ _ _ I E). specialize (IH s' I').
+    destruct (hrun mws members s' t); auto.
+  - specialize (IH s I). destruct (hrun mws members s t); auto.
+Qed.
+
+Lemma hrefs_cells l : forall c, Forall (fun m => (c <= hcell m < c + length l)%nat) (hrefs_from c l).
+Proof.
+  induction l as [|r t IH]; intros c; simpl; constructor.
+  - simpl. lia.
+  - eapply Forall_impl; [|apply (IH (S c))]. intros m H. simpl in H. lia.
+Qed.
+
+Lemma as_rxn_frame h h0 n0 (ms : list href) :
+  (forall c, (c < n0)%nat -> nth c h [] = nth c h0 []) ->
+  Forall (fun m => (hcell m < n0)%nat) ms ->
+  map (as_rxn h) ms = map (as_rxn h0) ms.
+Proof.
+  intros F. induction 1 as [|m t Hm Ht IH]; simpl; auto.
+  f_equal; auto. unfold as_rxn, hget. rewrite F; auto.
+Qed.
+
+Lemma as_rxn_initial l : forall pre, 
+  map (as_rxn (pre ++ map st l)) (hrefs_from (length pre) l) = l.
+Proof.
+  induction l as [|r t IH]; intros pre; simpl; auto. f_equal.
+  - unfold as_rxn, hget; simpl. rewrite app_nth2 by lia. rewrite Nat.sub_diag. simpl. destruct r; reflexivity.
+  - specialize (IH (pre ++ [st r])). rewrite <- app_assoc in IH. simpl in IH.
+    rewrite app_length in IH. simpl in IH. rewrite Nat.add_1_r in IH. exact IH.
+Qed.
+
+Lemma take_set_same s rest : take_set s (set_members s ++ rest) = (s, rest).
+Proof.
+  destruct s as [r|rs|rs]; simpl; auto.
+  - rewrite firstn_app, Nat.sub_diag, firstn_all. simpl. rewrite app_nil_r.
+    rewrite skipn_app, Nat.sub_diag, skipn_all. reflexivity.
+  - rewrite firstn_app, Nat.sub_diag, firstn_all. simpl. rewrite app_nil_r.
+    rewrite skipn_app, Nat.sub_diag, skipn_all. reflexivity.
+Qed.
+
+Lemma take_parts_same ps : take_parts ps (concat (map (fun p => set_members (snd p)) ps)) = ps.
+Proof.
+  induction ps as [|[b s] t IH]; simpl; auto. rewrite take_set_same. rewrite IH. reflexivity.
+Qed.
+
+Lemma rebuild_same o : rebuild o (flat_members o) = o.
+Proof.
+  destruct o as [b s|b ps]; simpl.
+  - rewrite <- (app_nil_r (set_members s)). rewrite take_set_same. reflexivity.
+  - rewrite take_parts_same. reflexivity.
+Qed.
+
+(* whatever is done to copies of the members (copy, re-base, reverse, and the same again on the
+   results), the object read back from the heap is the original one *)
+Lemma history_lemma mws o ops : fst (fst (hist_run mws o ops)) = o.
+Proof.
+  unfold hist_run. set (l := flat_members o). set (members := hrefs_from 0 l).
+  set (s0 := mkhs (map st l) []).
+  assert (I0 : hinv (length l) (map st l) s0).
+  { unfold hinv, s0; simpl. rewrite map_length. split; [lia|]. split; [constructor|auto]. }
+  assert (I := hrun_inv mws members (length l) (map st l) ops s0 I0).
+  destruct (hrun mws members s0 ops) as [f oks]. simpl in *. destruct I as (_ & _ & F).
+  rewrite (as_rxn_frame (hp f) (map st l) (length l) members F).
+  - unfold members. assert (E := as_rxn_initial l []). simpl in E. rewrite E. apply rebuild_same.
+  - unfold members. eapply Forall_impl; [|apply (hrefs_cells l 0)]. intros m H. simpl in H. lia.
+Qed.
+
+(* and the derived objects live in cells of their own *)
+Lemma history_derived_fresh mws o ops :
+  let l := flat_members o in
+  let f := fst (hrun mws (hrefs_from 0 l) (mkhs (map st l) []) ops) in
+  Forall (fun d => (length l <= hcell d < length (hp f))%nat) (derived f).
+Proof.
+  intros l f.
+  assert (I0 : hinv (length l) (map st l) (mkhs (map st l) [])).
+  { unfold hinv; simpl. rewrite map_length. split; [lia|]. split; [constructor|auto]. }
+  destruct (hrun_inv mws (hrefs_from 0 l) (length l) (map st l) ops _ I0) as (_ & D & _). exact D.
+Qed.
+
+Lemma history_then_apply_lemma mws o ops pt w m :
+  call pt w (fst (fst (hist_run mws o ops))) m = call pt w o m.
+Proof. rewrite history_lemma. reflexivity. Qed.
